@@ -1,4 +1,4 @@
-(* Witness/D3w.v — two hand-written histories (replayed on the real app: corpus/C03/d3_*.txt) exhibiting known finding D3:
+(* Witness/D3w.v — two hand-written histories (the first continues to the resolution that made EndBlock panic) (replayed on the real app: corpus/C03/d3_*.txt) exhibiting known finding D3:
    CalculateBetAmountInt counts its carry twice.  Converted by tools/hist2coq.py. *)
 From Coq Require Import ZArith Bool List.
 From Sge Require Import Lib.Dec Model.Types Model.Orderbook Model.Mint Model.Chain.
@@ -27,6 +27,14 @@ Definition d3neg_ops : list op := [
   OWager 2 {| tk_signer := 0; tk_exp := 1700009999 |} 50 101 7 0 3000000000000000000 1000000000000000000 [(0, 1000000000000000000); (1, 1000000000000000000)] {| ky_ignore := true; ky_approved := false; ky_id := (-1) |} 1;
   OEnd;
   OBegin 1700000045;
+  OWager 3 {| tk_signer := 0; tk_exp := 1700009999 |} 51 14 7 1 2000000000000000000 1000000000000000000 [(0, 1000000000000000000); (1, 1000000000000000000)] {| ky_ignore := true; ky_approved := false; ky_id := (-1) |} 1;
+  OEnd;
+  OBegin 1700000050;
+  OMarketResolve 0 {| tk_signer := 0; tk_exp := 1700009999 |} 7 1700000050 [1] 5;
+  OEnd;
+  OBegin 1700000055;
+  OEnd;
+  OBegin 1700000060;
   OEnd
 ].
 Definition d3over_init : chain := init [(0, 1000000); (1, 1000000); (2, 1000000); (3, 1000000); (4, 1000000); (5, 1000000)] 7000000 {| pr_bet_batch := 5; pr_bet_min := 3; pr_bet_fee := 1; pr_ob_maxpart := 100; pr_ob_batch := 5; pr_ob_thr := 1; pr_h_mindep := 2; pr_h_fee := 500000000000000000; pr_h_maxw := 3 |} [0; 1; 2; 3] {| bpy := 6311520; excl := 0; phases := [{| ph_infl := 229787234042553191; ph_coef := 500000000000000000 |}; {| ph_infl := 286259541984732824; ph_coef := 500000000000000000 |}] |} 1700000000 true true.
